@@ -151,6 +151,7 @@ func checkC06(c *Ctx) {
 	c.MinCount("R6.6", 3)
 	ruleDispatch(c, dv, "R6.8", false, true) // every axis position reaches the transfer function
 	ruleFlipAfterDeadzone(c, dv, "R6.7")
+	ruleRescaleExact(c, dv, "R6.10")
 	c.importRules(checkC07, []string{"R7.1"}, "R6.9") // every position that passes the gates is transmitted: each controller path sends the active controller (no second, value-based suppression)
 	c.MinCount("R6.1", 2)
 	c.MinCount("R6.2", 2)
@@ -763,4 +764,99 @@ func ruleFlipAfterDeadzone(c *Ctx, dv *dev, rule string) {
 		return
 	}
 	c.Check(bad == "", rule, "device.handleABSEvent/deadzone-before-flip", pos, fmt.Sprintf("%d comparison(s) with the deadzone, none on a flipped position", n), bad)
+}
+
+// ruleRescaleExact: R6.10 "the physical end stops map exactly to the ends of the range" through the deadzone rescale:
+// the shaped value is (v -/+ dz) DIVIDED by (1 - dz) with the very same dz.  At the end stop v = +/-1 numerator and
+// denominator are then the same floating-point number (IEEE subtraction is sign-symmetric), the quotient is exactly
+// +/-1 and the scaling reaches 127 / 16383.  Multiplying by the reciprocal 1/(1-dz) instead rounds twice and gives
+// 0.99999999999999989 for many deadzones (0.05, 0.06, 0.09, 0.13, ...): the end stop then transmits 126.
+func ruleRescaleExact(c *Ctx, dv *dev, rule string) {
+	fn := dv.fn["handleABSEvent"]
+	hosts := []*ssa.Function{fn}
+	for _, h := range c.P.Funcs {
+		if dv.newHelpers()[h] && dv.ownerOf(h) == fn {
+			hosts = append(hosts, h)
+		}
+	}
+	pos := c.P.Pos(fn.Pos())
+	okSites, bad := 0, ""
+	for _, host := range hosts {
+		vw := NewFnView(c.P, host)
+		isDz := func(v ssa.Value) bool {
+			s := vw.Term(v).String()
+			return strings.Contains(s, "Deadzones[") || strings.Contains(s, "DefaultDeadzone[") || strings.Contains(s, "call:") && strings.Contains(strings.ToLower(s), "deadzone")
+		}
+		isOne := func(v ssa.Value) bool {
+			k, ok := v.(*ssa.Const)
+			if !ok || k.Value == nil {
+				return false
+			}
+			f, _ := constant.Float64Val(constant.ToFloat(k.Value))
+			return f == 1
+		}
+		oneMinusDz := func(v ssa.Value) (ssa.Value, bool) { // (1 - dz) -> dz
+			bo, ok := v.(*ssa.BinOp)
+			if ok && bo.Op == token.SUB && isOne(bo.X) && (isDz(bo.Y) || host != fn) {
+				return bo.Y, true
+			}
+			return nil, false
+		}
+		for _, b := range host.Blocks {
+			for _, in := range b.Instrs {
+				bo, ok := in.(*ssa.BinOp)
+				if !ok {
+					continue
+				}
+				if bt, isB := bo.Type().Underlying().(*types.Basic); !isB || bt.Info()&types.IsFloat == 0 {
+					continue
+				}
+				if (bo.Op == token.SUB || bo.Op == token.ADD) && host == fn && isDz(bo.Y) && !isOne(bo.X) {
+					// (v -/+ dz): whatever scales it must be the division by (1 - the same dz)
+					for _, r := range *bo.Referrers() {
+						sc, isSc := r.(*ssa.BinOp)
+						if !isSc || (sc.Op != token.MUL && sc.Op != token.QUO) {
+							continue
+						}
+						dz, isDiv := oneMinusDz(sc.Y)
+						if !(sc.Op == token.QUO && sc.X == ssa.Value(bo) && isDiv && vw.Term(dz).String() == vw.Term(bo.Y).String()) && bad == "" {
+							bad = fmt.Sprintf("the deadzone-shifted value is scaled at %s by something other than a division by (1 - the same deadzone): the end stop does not map to exactly +/-1", c.P.Pos(sc.Pos()))
+						}
+					}
+				}
+				switch bo.Op {
+				case token.QUO:
+					if isOne(bo.X) {
+						if _, isRecip := oneMinusDz(bo.Y); isRecip {
+							bad = fmt.Sprintf("the shaped value is multiplied by the reciprocal 1/(1 - deadzone) (%s): (1-dz)*(1/(1-dz)) is 0.99999999999999989 for many deadzones, so the physical end stop transmits 126 instead of 127", c.P.Pos(bo.Pos()))
+						}
+						continue
+					}
+					if dz, isDiv := oneMinusDz(bo.Y); isDiv {
+						// numerator (v -/+ dz) with the same dz
+						num, isBO := bo.X.(*ssa.BinOp)
+						if isBO && (num.Op == token.SUB || num.Op == token.ADD) && vw.Term(num.Y).String() == vw.Term(dz).String() {
+							okSites++
+						} else {
+							bad = fmt.Sprintf("the division by (1 - deadzone) at %s is not applied to (value -/+ the same deadzone)", c.P.Pos(bo.Pos()))
+						}
+					}
+				}
+			}
+		}
+	}
+	if bad == "" && okSites == 0 {
+		c.Undec(rule, "device.handleABSEvent/deadzone-rescale-exact-at-end-stops", pos, "no rescale of the form (v -/+ dz) / (1 - dz) found")
+		return
+	}
+	c.Check(bad == "", rule, "device.handleABSEvent/deadzone-rescale-exact-at-end-stops", pos, fmt.Sprintf("%d rescale site(s) of the form (v -/+ dz) / (1 - dz): exactly +/-1 at the end stops", okSites), bad)
+}
+
+// rescaleRules: R6.10 alone, for import by C05 (the same structural fact bounds the shaped value by 1 in magnitude).
+func rescaleRules(c *Ctx) {
+	dv := newDev(c, "R6.0")
+	if !dv.ok || dv.fn["handleABSEvent"] == nil {
+		return
+	}
+	ruleRescaleExact(c, dv, "R6.10")
 }
